@@ -347,7 +347,11 @@ func gen(r *vh.Rand, tier string) []string {
 		out = append(out, genInst(r))
 	}
 	for i := 0; i < 6*mul; i++ {
-		out = append(out, fmt.Sprintf("iter %d %d %d %d", r.Range(2, 6), r.Range(1, 200), r.Range(1, 7), 1500))
+		rounds := 10000 // start-up rounds per case; a racy first call shows within ~5 (16 cores) to ~300 (2 cores) rounds
+		if tier == "thorough" {
+			rounds = 3000
+		}
+		out = append(out, fmt.Sprintf("iter %d %d %d %d", r.Range(2, 6), r.Range(1, 200), r.Range(1, 7), rounds))
 	}
 	return out
 }
